@@ -466,6 +466,10 @@ func runC05(cfg Config, r *Result) {
 	g := &c05Gen{cfg: cfg, all: cfg.Tier == "thorough", per: 2}
 	var progs []string
 	progs = append(progs, c05Seeds...)
+	// recorded witnesses (already rule-breaking programs) are replayed as they are
+	for _, w := range corpusFiles("C05") {
+		c05Check(c, c05Mutant{Src: w, Rule: "stray-text-after-end", Pos: "corpus-file"}, "")
+	}
 	corpus := CorpusPrograms()
 	for i, s := range corpus {
 		if cfg.Tier == "thorough" || i%3 == int(cfg.Seed%3) {
